@@ -79,7 +79,9 @@ class ModelState:
         return self.handles[h].path + list(sub)
 
     def retain(self, new_id, h, sub):
-        H = self.handles[h]
+        H = self.handles.get(h)
+        if H is None:
+            return False  # the source handle itself could not be created
         p = H.path + list(sub)
         try:
             target = self.resolve(H.res, p)
@@ -488,7 +490,12 @@ class Session:
             return
         # --- model
         mod, target = m.apply_op(step, sut_outcome=sut)
-        if self.oracle["results"]:
+        not_a_collection = not isinstance(target, (dict, list))
+        if not_a_collection and mod.kind == "exc" and sut.kind == "exc":
+            # the path leads to a scalar (or nowhere) on both sides - e.g. after popitem chose
+            # another pair than the generator assumed: this is not a collection operation
+            pass
+        elif self.oracle["results"]:
             verdict, detail = model.judge(op, sut, mod, iter_unordered=isinstance(target, dict))
             if op == "popitem" and mod.kind == "ret" and isinstance(mod.value, tuple) \
                     and mod.value and mod.value[0] in ("<not-present>", "<bad-popitem-result>"):
